@@ -156,6 +156,13 @@ depth, evaluated from any block, yields properly nested arms in the order the ge
 theorem C18_mirgen_layout_nested (sh : Sh) (cur : Nat) : nestedArms (lay sh cur).arms = true :=
   (lay_ok sh cur).nest
 
+/-- together: in every function whose arms are those of an `if`/`match` nesting numbered by mirgen, a block without
+terminator falls out of the innermost arm that encloses it -/
+theorem C18_mirgen_fallthrough_innermost (bs : Cfg) (sh : Sh) (hl : arms bs = (lay sh 0).arms) (b : Nat) (a : Arm)
+    (h : lastContaining (arms bs) b = some a) :
+    a ∈ arms bs ∧ a.contains b = true ∧ ∀ a' ∈ arms bs, a'.contains b = true → a.inside a' = true :=
+  C18_fallthrough_arm_is_innermost bs (by simp [nested, hl, (lay_ok sh 0).nest]) b a h
+
 /-- … and all its arms lie after the block it starts in and end at or before the block it finishes in -/
 theorem C18_mirgen_layout_bounds (sh : Sh) (cur : Nat) :
     cur ≤ (lay sh cur).cur ∧ ∀ a ∈ (lay sh cur).arms, cur < a.start ∧ a.stop ≤ (lay sh cur).cur :=
